@@ -24,13 +24,11 @@ def build(tier):
             cls = "it" if e["pre_mask"] == full else ("ml" if e["ml_ok"] else ("partial" if e["pre_mask"] else "fail"))
             chosen.setdefault(cls, []).append(pat)
         for cls, lst in sorted(chosen.items()):
-            take = lst[:: max(1, len(lst) // (2 if tier == "quick" else 5))][: (2 if tier == "quick" else 5)]
+            take = lst[:: max(1, len(lst) // (1 if tier == "quick" else 5))][: (1 if tier == "quick" else 5)]
             for pi, pat in enumerate(take):
-                for api in (0, 1):
+                for api in ((0, 1) if tier == "thorough" else ((len(pat) + n1) % 2,)):
                     nsteps = 3 + (len(pat) if api == 0 else 1) + 1
                     for cut in range(0, nsteps + 1):
-                        if tier == "quick" and cut % 2 == (pi + api) % 2 and cut < nsteps - 2:
-                            continue
                         for role in ((0, 1) if cut >= nsteps - 1 or tier == "thorough" else (0,)):
                             qs.append(ldpc_cycle("C08", cfg, pat, (1, 9)[pi % 2], api, 1, (1 + pi) % 3, EN, cb=(0, 1, 2, 3)[(cut + pi) % 4],
                                                  extra=dict(CUT=cut, ROLE_BOTH=role), expect=False))
@@ -38,6 +36,8 @@ def build(tier):
     for codec, m, k, r in rs:
         n = k + r
         pats = [[], list(range(k)), list(range(r, n)), list(range(n)), [n - 1], [0] + list(range(k, n))]
+        if tier == "quick":
+            pats = [list(range(r, n)), [n - 1], [0] + list(range(k, n))]
         for pi, pat in enumerate(pats):
             for api in (0, 1):
                 nsteps = 3 + (len(pat) if api == 0 else 1) + 1
